@@ -278,6 +278,12 @@ class Worker(threading.Thread):
                 self.job()
             except Exception as x:
                 log.exception("unhandled exception from job in worker thread %s: %s", self.name, x)
+            except BaseException:
+                # the job ended with SystemExit / KeyboardInterrupt: this thread is about to die,
+                # so take it out of the pool's bookkeeping instead of leaving a dead worker counted as busy
+                self.job = None
+                self.pool.worker_died(self)
+                raise
             self.job = None
             self.pool.notify_done(self)
         self.pool = None
@@ -353,6 +359,11 @@ class Pool(object):
             self.busy.add(worker)
             worker.process(job)
         log.debug("worker counts: %d busy, %d idle", len(self.busy), len(self.idle))
+
+    def worker_died(self, worker):
+        """A worker thread is terminating abnormally: it no longer occupies a slot."""
+        with self.count_lock:
+            self.busy.discard(worker)
 
     def notify_done(self, worker):
         with self.count_lock:
